@@ -37,7 +37,7 @@ func init() {
 			ev.Inconsistent("layer-B corpus: %v", err)
 		}
 		for _, it := range c.Items {
-			if !it.GenOK {
+			if !it.GenOK && !skipNotCompiling(it) {
 				ev.Inconsistent("generation failed (exit %d): %s\n%s", it.Exit, it.Stdout, it.Text)
 			}
 		}
